@@ -1,12 +1,18 @@
 import Zrnt.Driver.Loop
 import Zrnt.Util.C19Driver
+import Zrnt.Beacon.C02Driver
+import Zrnt.Gossip.Driver
 import Zrnt.SSZ.Driver
 import Zrnt.Shuffle.Driver
+import Zrnt.ForkChoice.Driver
 /-! Registry of `zmodel` modes. One line per component: `import` above, entry in `modes` below. -/
 namespace Zrnt.Driver
 
 def modes : List Mode := [
+  Zrnt.ForkChoice.Driver.fc09Mode, Zrnt.ForkChoice.Driver.fc10Mode, Zrnt.ForkChoice.Driver.fc11Mode,
   Zrnt.Util.c19Mode,
+  Zrnt.Beacon.c02Mode,
+  Zrnt.Gossip.Driver.c12Mode,
   Zrnt.SSZ.Driver.sszMode,
   Zrnt.SSZ.Driver.sszStateMode,
   Zrnt.Shuffle.shuffleMode
